@@ -165,6 +165,24 @@ def _option_none_edges(fn, tyfrag):
     return out
 
 
+def _poisoned_lock_edges(fn):
+    """Edges taken when a Mutex::lock() result is Err (a poisoned lock that the code chooses to leave alone)."""
+    out = set()
+    for bb, b in enumerate(fn.blocks):
+        t = b['term']
+        if not t or t['k'] != 'switch' or b['cleanup'] or t['discr']['k'] == 'const' or t['discr']['pl']['p']:
+            continue
+        for s_ in b['stmts']:
+            if s_['k'] == 'assign' and not s_['pl']['p'] and s_['pl']['l'] == t['discr']['pl']['l'] and s_['rv']['k'] == 'discr':
+                ty = clean_ty(fn.local_ty(s_['rv']['pl']['l'])) if not s_['rv']['pl']['p'] else clean_ty(s_['rv']['pl']['ty'])
+                if ty.startswith('core::result::Result<') and 'MutexGuard' in ty and 'PoisonError' in ty:
+                    tg = dict((str(v), tb) for v, tb in t['targets'])
+                    err_t = tg.get('1', t['otherwise'] if '0' in tg else None)
+                    if err_t is not None:
+                        out.add((bb, err_t))
+    return out
+
+
 def _wakes_what_it_took(ctx, fn, key, why, out):
     """On every path that took a waker out of a slot, the waker is woken: the only ways past the wake are the None edges of the tests of
     that Option<Waker>."""
@@ -584,6 +602,24 @@ def _pool_rows(ctx):
         locks = [bb for bb, t, kind, cls in lock_sites(rf) if cls == 'SchedulerCore.threads']
         if locks and _always(rf, locks):
             out.append(ok(R, key, 'every call takes the threads lock and looks at the table', fn=rf.name))
+            # a thread that reports finished leaves the table (in this function or a closure it runs over the table)
+            key2 = 'remove_finished_threads|finished-means-removed'
+            fam = [rf] + [c for c in F.crate_fns() if c.is_closure and c.root == rf.name]
+            REM = ('::Vec::remove', '::Vec::swap_remove')
+            for f_ in fam:
+                fins = [bb for bb, t in f_.calls() if (t['func'].get('fn') or '').endswith('::is_finished') and not f_.blocks[bb]['cleanup']]
+                rems = [bb for bb, t in f_.calls() if (t['func'].get('fn') or '').endswith(REM) and not f_.blocks[bb]['cleanup']]
+                if f_ is rf and fins and rems:
+                    e = result_edges(rf, fins[0])
+                    yes = e.get('otherwise') if e else None
+                    if yes is None:
+                        out.append(undecided(R, key2, 'test of is_finished() not recognised'))
+                    elif not feasible_reach(rf, 0, set(fins), set()):
+                        out.append(bad(R, key2, 'the walk over the thread table can never reach the is_finished() test: dead threads are never reaped', fn=rf.name))
+                    elif rf.must_pass(yes, set(rf.exits()) | set(fins), set(rems)) or not feasible_reach(rf, yes, set(rf.exits()) | set(fins), set(rems)):
+                        out.append(ok(R, key2, 'a thread that reports finished is always taken out of the table', fn=rf.name))
+                    else:
+                        out.append(bad(R, key2, 'a thread that reports finished can stay in the table: it keeps its slot (and its busy flag) for ever', fn=rf.name))
         elif locks:
             out.append(bad(R, key, 'remove_finished_threads can return without looking at the thread table: a pool thread killed by a panicking job keeps its slot', fn=rf.name))
     return out
@@ -684,6 +720,27 @@ def _future_rows(ctx):
         pk = [bb for bb, t in aq.calls() if (t['func'].get('fn') or '').endswith('thread::panicking') or (t['func'].get('fn') or '').endswith('std::thread::functions::panicking')]
         if pk and _always(aq, pk):
             out.append(ok(R, key, 'the guard always tests thread::panicking()', fn=aq.name))
+            # and when the answer is yes, the queue is marked
+            u = FieldUse(aq, None)
+            marks = [bb for (bb, i, v) in u.assigns.get('state', []) if 'Panicked' in render(v)]
+            for s_ in g.sites.get(aq.name, []):
+                if s_.kind == 'hof':
+                    for c in s_.targets:
+                        cf = F.fn(c)
+                        if cf is None:
+                            continue
+                        cm = [bb for (bb, i, v) in FieldUse(cf, None).assigns.get('state', []) if 'Panicked' in render(v)]
+                        if cm and _always(cf, cm):
+                            marks.append(s_.bb)
+            e = result_edges(aq, pk[0])
+            yes = e.get('otherwise') if e else None
+            key2 = 'ActiveQueue::drop|unwinding-marks-the-queue'
+            if not marks or yes is None:
+                out.append(undecided(R, key2, 'write of Panicked or the test of panicking() not recognised'))
+            elif aq.must_pass(yes, set(aq.exits()), set(marks)) or not _reach_exit_avoiding(aq, set(marks), _poisoned_lock_edges(aq), src=yes):
+                out.append(ok(R, key2, 'on the unwinding edge every path marks the queue Panicked', fn=aq.name))
+            else:
+                out.append(bad(R, key2, 'a job is unwinding through the guard and the guard can finish without marking the queue Panicked: later operations run on the half-updated data', fn=aq.name))
         elif pk:
             out.append(bad(R, key, 'the ActiveQueue guard can be dropped without testing whether a job is unwinding through it: a panicking operation leaves its queue usable', fn=aq.name))
     return out
